@@ -286,19 +286,21 @@ CHECKS["C15"] = dict(
           dict(name="c15bclang", src=["w_cpp.cpp", "vh.c"], lib=CPPLIB, build="casan", mode="c15b", cases=(0, 600000), thorough_only=True)],
 )
 
+BUILDS["gccO3s"] = dict(cc="gcc", cxx="g++", flags="-O3 -g -fsigned-char")
+BUILDS["clangO3u"] = dict(cc="clang", cxx="clang++", flags="-O3 -g -funsigned-char")
 for _cc in ("gcc", "clang"):
     for _o in ("O0", "O2", "Os"):
         for _ch, _fl in (("s", "-fsigned-char"), ("u", "-funsigned-char")):
             BUILDS["%s%s%s" % (_cc, _o, _ch)] = dict(cc=_cc, cxx="g++" if _cc == "gcc" else "clang++", flags="-%s -g %s" % (_o, _fl))
 XS = ["w_xscript.c", "vh.c"]
 ENGINE_NOTES["w_xscript.c"] = "transcript worker: one digest per seeded scenario, compared across build configurations"
-_XSB = ["gccO2s", "gccO0s", "gccOss", "gccO0u", "gccO2u", "gccOsu", "clangO0s", "clangO2s", "clangOss", "clangO0u", "clangO2u", "clangOsu", "gasan", "casan"]
+_XSB = ["gccO2s", "gccO0s", "gccOss", "gccO0u", "gccO2u", "gccOsu", "clangO0s", "clangO2s", "clangOss", "clangO0u", "clangO2u", "clangOsu", "gccO3s", "clangO3u", "gasan", "casan"]
 CHECKS["C18"] = dict(
     level_text="A transcript worker replays a seeded scenario corpus touching every public C function (init/verify verdicts and codes, scripted call lists with all getters and lookups, get_raw/to_writer, "
                "to_string at cut capacities, captured print output, writer call lists at cut capacities, writer_verify/reset) and emits one digest per scenario; the digests must be identical under "
-               "{gcc,clang} x {-O0,-O2,-Os} x {-fsigned-char,-funsigned-char} and under gcc/clang ASan+UBSan, which must also stay silent. On inequality the scenario is re-run under both builds and the "
+               "{gcc,clang} x {-O0,-O2,-Os} x {-fsigned-char,-funsigned-char}, gcc -O3, clang -O3 and under gcc/clang ASan+UBSan, which must also stay silent. On inequality the scenario is re-run under both builds and the "
                "full transcripts are diffed. Only x86-64 is available: word size and endianness are not varied.",
-    technique="cross-build differential monitor: per-scenario transcript digests compared across 14 (C) + 8 (C++) build configurations incl. sanitizer builds",
+    technique="cross-build differential monitor: per-scenario transcript digests compared across 16 (C) + 8 (C++) build configurations incl. sanitizer builds",
     level_note=LVL_NOTE + " No 32-bit or ARM toolchain/emulator in this sandbox; -funsigned-char is the one Cortex-M trait reproduced.",
     title="Behaviour does not depend on compiler, optimisation level or char signedness",
     rule="one evaluation = one scenario executed under one build; non-trivial = every scenario; distinct = distinct transcript digests (identical across builds by the oracle, so this counts distinct scenarios)",
